@@ -40,6 +40,12 @@ let run () =
     match split line with
     | "A" :: i :: p :: f :: ng :: _ -> incr cases; id := i; pat := p; flags := f; ngroups := ios ng; names := []
     | "N" :: _ :: rest -> names := List.map unhex rest
+    | "NS" :: _ :: rest ->
+      (* C16: names belong to groups in left-parenthesis order; the program's name table is all-empty (dropped)
+         when no group is named *)
+      let src = List.map unhex rest in
+      if !names <> [] && !names <> src then
+        viol "C16" (Printf.sprintf "group-names=%s,source-order=%s" (String.concat "_" (List.map hexs !names)) (String.concat "_" (List.map hexs src)))
     | "T" :: hx :: _ -> text := unhex hx; texthex := hx; ms := []
     | "M" :: s :: e :: nc :: rest ->
       let (caps, _) = parse_res (ios nc) rest in
